@@ -211,7 +211,8 @@ structure Field where
   ty : Ty
   dflt : Dflt
   noOutput : Bool := false
-  own : Bool := true          -- declared by the class itself (false: a ParserField taken over from a base class)
+  own : Bool := true          -- set up by the class itself or by a case-insensitive base (false: a ParserField taken over
+                              -- from a case-sensitive base class, whose aliases stay as declared)
   deriving Repr
 
 def Dflt.isNone : Dflt → Bool
@@ -476,12 +477,12 @@ def dataLoop (rec : Ty → Val → Comp) (ci : Bool) (fields : List Field) :
             | (.ok r, s2) => (.ok ((f.name, v') :: r), s2)
   | _, _, s => (.ok [], s)
 
-/-- Data-first search, second loop — base.py:476-489: defaults of the fields not provided. -/
+/-- Data-first search, second loop (base.py, `data_first_parse`): requiredness and defaults of the fields not provided. -/
 def defaultLoop (ro : ROpts) (have_ : List String) : List Field → St → Except Err (List (String × Val)) × St
   | [], s => (.ok [], s)
   | f :: fs, s =>
       if have_.contains f.name then defaultLoop ro have_ fs s
-      else if f.dflt.isNone then (.error .perr, s)                   -- AbsenceError (this loop runs only without ignore_required)
+      else if f.dflt.isNone && !ro.ignoreRequired then (.error .perr, s)     -- `field.is_required(options)`: AbsenceError
       else
         match getDefault ro f.dflt s with
         | (Option.none, s1) => defaultLoop ro have_ fs s1
@@ -497,8 +498,7 @@ def parseData (rec : Ty → Val → Comp) (ro : ROpts) (d : Decl) (keys : List S
     match dataLoop rec d.ci d.fields keys items s with
     | (.error e, s1) => (.error e, s1)
     | (.ok r1, s1) =>
-      -- base.py:476: `if not options.ignore_required:` — under ignore_required the data-first strategy fills no defaults
-      if ro.ignoreRequired then (.ok r1, s1) else
+      -- "under ignore_required no field is required (is_required), but the defaults of unprovided fields still apply"
       match defaultLoop ro (r1.map (·.1)) d.fields s1 with
       | (.error e, s2) => (.error e, s2)
       | (.ok r2, s2) => (.ok (r1 ++ r2), s2)
